@@ -49,7 +49,7 @@ func (c config) name() string {
 
 var symNames = []string{"W(L1,plain)", "W(L1,marker+2csrc,empty)", "W(L1,15csrc,1460B)", "W(L1,one-byte-ext)", "W(L1,two-byte-ext,1459B)", "W(L1,padding)",
 	"W(L2,plain)", "R(R1,plain)", "R(R1,two-byte-ext)", "R(R1,padding)", "R(R2,plain)",
-	"RTCPin(SR)", "RTCPin(NACK never-sent)", "RTCPin(TWCC)", "RTCPin(CCFB)", "RTCPout(PLI)", "Tick", "FailNextWrite", "FailNextRead"}
+	"RTCPin(SR)", "RTCPin(NACK never-sent)", "RTCPin(TWCC)", "RTCPin(CCFB)", "RTCPout(PLI)", "Tick", "FailNextWrite", "FailNextRead", "W(L1,plain,SSRC of stream 3)"}
 
 const (
 	symTick  = 16
@@ -74,6 +74,8 @@ type system struct {
 	rseq  [3]uint16
 	failW bool
 	failR bool
+	// SSRC to put into the next written header instead of the stream's own
+	foreign uint32
 }
 
 type failure struct{ key, msg string }
@@ -163,6 +165,9 @@ func (sys *system) write(stream, shape int) (string, error) {
 	sys.wseq[stream]++
 	q := sys.wseq[stream]
 	h, p := hk.Shape(shape, l.Info.SSRC, q, uint32(q)*3000)
+	if sys.foreign != 0 {
+		h.SSRC = sys.foreign
+	}
 	negotiated := stream == 1
 	if negotiated {
 		_ = h.SetExtension(hk.TwccExtID, []byte{0xAB, byte(q)})
@@ -390,6 +395,22 @@ func (sys *system) apply(sym int) (string, error) {
 	case sym == symFailW:
 		sys.failW = true
 		return "fw", nil
+	case sym == 19:
+		// any SSRC may travel on a stream's writer: here the one another bound stream uses
+		sys.foreign = sys.s.Locals[3].Info.SSRC
+		defer func() { sys.foreign = 0 }()
+		out, err := sys.write(1, 0)
+		if f, ok := err.(*failure); ok {
+			for _, m := range sys.c.Chain {
+				if strings.HasPrefix(m.Kind, "cc-gcc") {
+					// one root cause whatever the rest of the chain is: the gcc pacers keep one writer per SSRC and
+					// hand a packet to the writer registered for the SSRC in its header, not to the writer of the
+					// stream it was written on
+					f.key = "C01:gcc-pacer-routes-application-packets-by-ssrc"
+				}
+			}
+		}
+		return out, err
 	default:
 		sys.failR = true
 		return "fr", nil
@@ -463,7 +484,10 @@ func exec(c config, hist []int) hk.Step {
 					if f, ok := err.(*failure); ok {
 						key = f.key
 					}
-					st.Violation = &hk.Violation{Key: key + ":" + lastMember(c), Message: c.name() + ": " + err.Error(), Replay: describe(c, hist)}
+					if key != "C01:gcc-pacer-routes-application-packets-by-ssrc" {
+						key += ":" + lastMember(c)
+					}
+					st.Violation = &hk.Violation{Key: key, Message: c.name() + ": " + err.Error(), Replay: describe(c, hist)}
 				} else {
 					st.Dead = true
 				}
